@@ -124,12 +124,12 @@ func runC13(tier string, seed uint64) {
 		s := newSess("c13", "mem", SessOpts{})
 		s.MkBucket(b)
 		keys := []string{"k", "j", "p/q", "p/r", "z"}[:2+rng.Intn(4)]
-		mode := rng.Intn(4) // 0: never versioned, 1: enabled from the start, 2,3: mixed
-		if mode == 1 {
+		mode := rng.Intn(6) // 0: never versioned, 1: enabled from the start, 2,3: mixed, 4: enabled, suspended before listing, 5: mixed, suspended before listing
+		if mode == 1 || mode == 4 {
 			s.SetVersioning(b, true)
 		}
 		for j := 0; j < length; j++ {
-			if mode >= 2 {
+			if mode == 2 || mode == 3 || mode == 5 {
 				c05RandomOp(s, b, keys, rng)
 				continue
 			}
@@ -145,6 +145,9 @@ func runC13(tier string, seed uint64) {
 			default:
 				s.Get(b, k, "")
 			}
+		}
+		if mode >= 4 {
+			s.SetVersioning(b, false) // listing a bucket whose versioning is suspended: every version is still there
 		}
 		// the full listing, cross-checked against unqualified reads (IsLatest = what GET resolves to)
 		full := s.ListVersions(b, "", "", "", "", -1)
@@ -193,5 +196,5 @@ func runC13(tier string, seed uint64) {
 		}
 		s.end()
 	}
-	sample("histories as in C05 (never-versioned, enabled from the start, mixed enable/suspend) over 2..5 keys incl. p/q p/r; then ListObjectVersions unpaginated (cross-checked with unqualified GETs), walks for max-keys 1..n+1 over 4 prefix/delimiter combinations following (NextKeyMarker, NextVersionIdMarker), and single pages from marker pairs naming existing versions")
+	sample("histories as in C05 (never-versioned, enabled from the start, mixed enable/suspend, and both of the latter suspended just before listing) over 2..5 keys incl. p/q p/r; then ListObjectVersions unpaginated (cross-checked with unqualified GETs), walks for max-keys 1..n+1 over 4 prefix/delimiter combinations following (NextKeyMarker, NextVersionIdMarker), and single pages from marker pairs naming existing versions")
 }
